@@ -103,7 +103,8 @@ def additionalKeys : List String :=
   ["pocketcore/BlockByteSize", "pos/RelaysToTokensMultiplierMap", "pos/ServicerStakeFloorMultiplier",
    "pos/ServicerStakeWeightMultiplier", "pos/ServicerStakeWeightCeiling", "pos/ServicerStakeFloorMultiplierExponent"]
 
-def subspaceOf (k : String) : String := (k.splitOn "/").headD ""
+/-- `k` = `"<sub>/<Key>"` (character lists: reducible by the kernel) -/
+def inSubspace (k sub : String) : Bool := k.toList.takeWhile (· != '/') == sub.toList
 
 /-! ## Export -/
 
@@ -175,7 +176,7 @@ def setModuleBal (accts : List Acct) (name : String) (v : Int) : List Acct :=
   accts.map (fun a => if a.module = name then { a with upokt := v } else a)
 
 def baseParams (ps : List (String × String)) (sub : String) : List (String × String) :=
-  ps.filter (fun e => subspaceOf e.1 = sub && !additionalKeys.contains e.1)
+  ps.filter (fun e => inSubspace e.1 sub && !additionalKeys.contains e.1)
 
 /-- `auth.InitGenesis`. -/
 def initAuth (g : G) (l : L) : L :=
